@@ -950,8 +950,10 @@ Definition show_outcome (o : outcome) : bytes :=
 (* opaque predicates of the case protocol: always true *)
 Definition opq_default (_ : N) (_ : obj) : bool := true.
 
-(* case: mode octx tctx chk obj;  mode "v" prints the verdict, "s" the verdict and the number of
-   loop iterations (hook verif_steps) *)
+(* case: mode octx tctx chk obj;  mode "v" prints the verdict, "s" the verdict, the number of
+   loop iterations (hook verif_steps) and "stable": the model is a function of the case, so
+   running it again, on the same or on a used type-check context, gives the same answer
+   (C09_deterministic); the runner prints "unstable:<run>" when the implementation does not *)
 Definition entry_checker (args : list bytes) : bytes :=
   let mode := nth_arg args 0 in
   match read_octx (nth_arg args 1), read_tctx (nth_arg args 2),
@@ -959,7 +961,7 @@ Definition entry_checker (args : list bytes) : bytes :=
   | Some oc, Some tc, Some c, Some o =>
     let '(r, k) := check opq_default oc tc (canon_obj o) c in
     if bytes_eqb mode (B "v") then show_outcome r
-    else if bytes_eqb mode (B "s") then show_outcome r ++ B " steps=" ++ show_nat k
+    else if bytes_eqb mode (B "s") then show_outcome r ++ B " steps=" ++ show_nat k ++ B " stable"
     else B "badcase"
   | _, _, _, _ => B "badcase"
   end.
